@@ -454,6 +454,34 @@ fn cyclic(w: &mut dyn Write, r: &mut Rng, len: usize, thorough: bool) -> usize {
         Err(e) => { writeln!(w, "c20 cyclic foreign-vd-{tagw}-base = 1 # exp=0 prove_rejected={}", sh(&e)).unwrap(); n += 1; }
     }
     }
+    // the base proof carries the verifier data it is given, whatever the caller's map of public inputs says about
+    // the positions of the verifier data (a map built from all public inputs of another proof, a zero-filled
+    // full-length map, a map with keys in that region only); positions before it carry the map's values
+    {
+        let other = { let mut b = vd.clone(); bump_hash(&mut b.circuit_digest, r); let k = r.below(ncap as u64) as usize; bump_hash(&mut b.constants_sigmas_cap.0[k], r); b };
+        let from_other: Vec<F> = cyclic_base_proof(&cy.data.common, &other, initial.into_iter().enumerate().collect()).public_inputs;
+        let maps: Vec<(&str, Vec<(usize, F)>)> = vec![
+            ("all-public-inputs-of-a-base-proof-for-other-data", from_other.iter().copied().enumerate().collect()),
+            ("zero-filled-full-length", (0..npi).map(|i| (i, F::ZERO)).collect()),
+            ("verifier-data-region-only", (start..npi).map(|i| (i, F::from_canonical_u64(r.next_u64() % P))).collect()),
+            ("user-region-and-first-verifier-data-position", (0..4).map(|i| (i, initial[i])).chain([(start, F::ONE)]).collect()),
+            ("last-position-only", vec![(npi - 1, F::ONE)]),
+        ];
+        for (name, m) in maps {
+            let res = catch_unwind(AssertUnwindSafe(|| cyclic_base_proof(&cy.data.common, &vd, m.iter().copied().collect())));
+            match res {
+                Ok(bp) => {
+                    let tail = bp.public_inputs.len() == npi && bp.public_inputs[start..] == slice[..];
+                    let user = m.iter().all(|&(i, v)| i >= start || bp.public_inputs[i] == v);
+                    let chk = check_vd(&cy, &bp, &vd);
+                    writeln!(w, "c20 cyclic base-proof-map:{name} = {} # exp=1 carries_given_data={} user_part={} check={chk}",
+                             (tail && user && chk == "ok") as u8, tail as u8, user as u8).unwrap();
+                }
+                Err(_) => writeln!(w, "c20 cyclic base-proof-map:{name} = 0 # exp=1 {}", site()).unwrap(),
+            }
+            n += 1;
+        }
+    }
     // an altered inner proof cannot be continued either
     if let Some(p) = chain.last() {
         let mut q = p.clone();
